@@ -95,6 +95,22 @@ func c10SubstVal(orig byte, k int) byte {
 	return orig - byte(k-3)
 }
 
+// c10Disputed / c10Index: the disputed zoo entries and a name index over both sets.
+var c10Disputed = peer.ZooDisputed()
+
+var c10Index = func() map[string]peer.Entry {
+	m := map[string]peer.Entry{}
+	for _, e := range peer.Zoo() {
+		m[e.Name] = e
+	}
+	for _, e := range c10Disputed {
+		if _, dup := m[e.Name]; !dup {
+			m[e.Name] = e
+		}
+	}
+	return m
+}()
+
 type c10Enum struct {
 	entries []peer.Entry
 	offsets []int // cumulative number of cases
@@ -109,7 +125,8 @@ func c10BuildEnum(tier string) *c10Enum {
 	}
 	e := &c10Enum{}
 	seen := map[string]bool{}
-	for _, z := range zooList {
+	// the disputed encodings (decoder and layout disagree on them) are hostile enough: C10 asks only for no crash
+	for _, z := range append(append([]peer.Entry{}, zooList...), c10Disputed...) {
 		if tier != "thorough" {
 			key := z.Kind
 			if z.Kind == "ROW" || z.Kind == "PARAMS" || z.Kind == "ROWFMT2" || z.Kind == "PARAMFMT" || z.Kind == "PARAMFMT2" {
@@ -153,7 +170,7 @@ func (c10) NRuns(tier string) int {
 	return n + 20000
 }
 func (c10) Rule() string {
-	return "corruption faults on server responses: (enumerated) every byte of every response of the entry set (quick: one entry per package type and data-type family; thorough: the whole 467-entry zoo) substituted by each of {0,1,2,3,4,7,8,0x7f,0x80,0xfe,0xff} and by its own value +-1..4 (a corrupted format is followed by a data package valid for the original format); every one-byte-length data type x every data length 0..255 with random data; packet headers with every length 0..9 and all message types; every format followed by 2..3 data tokens of its own and the other family; 43 announced packet sizes (negative, tiny, 8, beyond 16 and 32 bits, not numbers); after every response the client sends one more 600-byte request; 18 packages announcing 65535 items that arrive 1..9 bytes per packet; a quarter of the runs re-cut into packets of 1..64 body bytes, a fifth read 1..8 bytes at a time; (seeded) 2- and 4-byte windows overwritten with boundary integers, truncation plus garbage, known token followed by random bytes, format followed by arbitrary row bytes, purely random streams; DebugLogPackages on in a third of the runs; non-trivial = the corrupted bytes reached a package parser (not rejected at the packet layer); distinct = distinct (kind, subject, offset, value) / wire hash"
+	return "corruption faults on server responses: (enumerated) every byte of every response of the entry set (quick: one entry per package type and data-type family; thorough: the whole 467-entry zoo; plus the 123 disputed encodings) substituted by each of {0,1,2,3,4,7,8,0x7f,0x80,0xfe,0xff} and by its own value +-1..4 (a corrupted format is followed by a data package valid for the original format); every one-byte-length data type x every data length 0..255 with random data; packet headers with every length 0..9 and all message types; every format followed by 2..3 data tokens of its own and the other family; 43 announced packet sizes (negative, tiny, 8, beyond 16 and 32 bits, not numbers); after every response the client sends one more 600-byte request; 18 packages announcing 65535 items that arrive 1..9 bytes per packet; a quarter of the runs re-cut into packets of 1..64 body bytes, a fifth read 1..8 bytes at a time; (seeded) 2- and 4-byte windows overwritten with boundary integers, truncation plus garbage, known token followed by random bytes, format followed by arbitrary row bytes, purely random streams; DebugLogPackages on in a third of the runs; non-trivial = the corrupted bytes reached a package parser (not rejected at the packet layer); distinct = distinct (kind, subject, offset, value) / wire hash"
 }
 func (c10) Components() map[string]string {
 	return map[string]string{"tds (packet reader, Channel, PacketQueue, every package/format/value parser, String methods via debug log), asetypes.GoValue": "real (rewritten)", "transport": "stub: simrt.Conn", "server": "stub: byzantine peer (sim/peer encoders + corruption faults)", "process limits": "worker under ulimit -v, TotalAlloc measured per run"}
@@ -214,7 +231,7 @@ func c10Gen(r *Rand, idx int, tier string) *c10Plan {
 		val := c10SubstVal(z.Bytes[off], j%c10SubstN)
 		var body []byte
 		if z.Needs != "" {
-			body = append(body, zooIndex[z.Needs].Bytes...)
+			body = append(body, c10Index[z.Needs].Bytes...)
 		}
 		mut := append([]byte{}, z.Bytes...)
 		mut[off] = val
